@@ -11,7 +11,12 @@ impl Reduce<U256> for Scalar {
     #[verifier::external_body] fn from_be_bytes_reduced(b: FieldBytes) -> (r: Scalar) ensures r.v@ == reduce_be(b@) { unimplemented!() }
     #[verifier::external_body] fn from_le_bytes_reduced(b: FieldBytes) -> (r: Scalar) ensures r.v@ == reduce_le(b@) { unimplemented!() }
 }
+// ff::PrimeField::from_repr: the canonical (non-reducing) decoder, None for a value >= n
+pub uninterp spec fn below_order(b: Seq<u8>) -> bool;
+pub axiom fn axiom_reduce_canonical(b: Seq<u8>) requires below_order(b) ensures reduce_be(b) == b;
 impl Scalar {
+    #[verifier::external_body] pub fn from_repr(b: FieldBytes) -> (r: CtOption<Scalar>)
+        ensures match r.o { Some(s) => below_order(b@) && s.v@ == b@, None => !below_order(b@) } { unimplemented!() }
     #[verifier::external_body] pub fn from_uint_reduced(u: U256) -> (r: Scalar) ensures r.v@ == (if u.le@ { reduce_le(u.v@) } else { reduce_be(u.v@) }) { unimplemented!() }
 }
 pub trait NzsLike { spec fn nzs(&self) -> Seq<u8>; }
